@@ -30,8 +30,13 @@ type c19Val struct {
 	vals  map[string]*c19Val
 }
 
-func c19S(s string) *c19Val      { return &c19Val{kind: 's', s: s} }
-func c19E() *c19Val              { return &c19Val{kind: 'e', s: "'${{ fromJSON(vars.E) }}'"} }
+func c19S(s string) *c19Val { return &c19Val{kind: 's', s: s} }
+
+// c19ESpellings: a scalar is "built from an expression" when it holds a placeholder anywhere
+var c19ESpellings = []string{"'${{ fromJSON(vars.E) }}'", "'v${{ vars.E }}'", "'${{ vars.E }}-x'", "'${{ vars.A }}${{ vars.B }}'", "'1${{ vars.E }}'"}
+
+func c19E() *c19Val              { return c19ESp(0) }
+func c19ESp(i int) *c19Val       { return &c19Val{kind: 'e', s: c19ESpellings[i]} }
 func c19L(es ...*c19Val) *c19Val { return &c19Val{kind: 'l', elems: es} }
 func c19M(kv ...any) *c19Val {
 	m := &c19Val{kind: 'm', vals: map[string]*c19Val{}}
@@ -485,8 +490,8 @@ func TestVerifC19(t *testing.T) {
 	}
 	// single members replaced by expressions (in rows, include values and exclude values, at
 	// every nesting depth of the algebra): such a member may be anything
-	{
-		one, two, e := c19S("1"), c19S("2"), c19E()
+	for sp := range c19ESpellings {
+		one, two, e := c19S("1"), c19S("2"), c19ESp(sp)
 		ve := []*c19Val{e, c19L(e), c19L(one, e), c19L(e, two), c19M("a", e), c19M("a", one, "b", e), c19M("a", c19M("a", e)), c19M("a", c19L(e))}
 		plain := []*c19Val{one, c19L(one, two), c19M("a", one), c19M("a", one, "b", two)}
 		var erows [][]*c19Val
